@@ -134,6 +134,25 @@ def run(ctx):
         for q in seqs:
             for st in q["stmts"]:
                 print("REPLAY impl: %-7s %s" % (st["obs"]["class"], st["text"]))
+    # concurrent bursts (CREATE GRAPH ?n + INSERT of an own triple from 8 goroutines): exactly the named graph appears
+    # once, and it holds every triple whose INSERT reported success
+    bursts = [q for q in seqs if q.get("burst")]
+    seqs = [q for q in seqs if not q.get("burst")]
+    nb = 0
+    for q in bursts:
+        bu = q["burst"]
+        key = lambda t: json.dumps(t, sort_keys=True)
+        want, got = {key(t) for t in (bu.get("insert_ok") or [])}, {key(t) for t in (bu.get("final") or [])}
+        if bu["create_ok"] != 1 or not bu["graph_seen"] or want != got:
+            nb += 1
+            if nb <= 3:
+                ctx.violation({"kind": "concurrent-create-burst", "case": {
+                    "statements": "8 goroutines, each: CREATE GRAPH ?n; INSERT DATA INTO ?n { /u<wK> \"p\"@[] /u<b> };",
+                    "creates_reporting_success": bu["create_ok"], "inserts_reporting_success": len(want),
+                    "triples_in_graph_afterwards": len(got), "lost": sorted(want - got)[:8]},
+                    "explain": "CREATE adds exactly the named graph (one of the concurrent CREATEs succeeds, the others fail "
+                               "with `already exists`), and every INSERT that reported success must be in the graph"})
+    ctx.cov["concurrent_bursts"] = len(bursts)
     cases = steps_of(seqs)
     classes = collections.Counter()
     for c in cases:
@@ -223,7 +242,12 @@ def oracle_violation(c):
     exact set semantics for INSERT / DELETE / CREATE / DROP, no effect for rejected statements"""
     st, o = c["stmt"], c["stmt"]["obs"]
     prev, after = c["prev"], o["after"]
-    key = lambda t: json.dumps(t, sort_keys=True)
+    def key(t):
+        t = json.loads(json.dumps(t))
+        t["p"].pop("z", None)                       # the zone an anchor was spelled in is not part of the value
+        if t["o"].get("p"):
+            t["o"]["p"].pop("z", None)
+        return json.dumps(t, sort_keys=True)
     sets = lambda l: {g: {key(t) for t in ts} for g, ts in l.items()}
     P, A = sets(prev), sets(after)
     kind = st["kind"]
